@@ -43,35 +43,35 @@ fn refcount_contract<const CLONES: usize>() {
     core::mem::forget(world);
 }
 //# id=K.autodespawn.refcount.c1 props=C10,C07 strength=complete shape="1 signal, parent+child" tier=quick fns=AutoDespawner::prepare,AutoDespawnSignal::clone,garbage_collect_entities,AutoDespawnSignalInner::drop
-#[kani::proof] #[kani::unwind(10)] fn k_autodespawn_refcount_c1() { refcount_contract::<1>(); }
+#[kani::proof] #[kani::unwind(6)] fn k_autodespawn_refcount_c1() { refcount_contract::<1>(); }
 //# id=K.autodespawn.refcount.c2 props=C10,C07 strength=bounded shape="2 clones, parent+child, collection after each drop" tier=quick fns=AutoDespawner::prepare,AutoDespawnSignal::clone,garbage_collect_entities,AutoDespawnSignalInner::drop
-#[kani::proof] #[kani::unwind(10)] fn k_autodespawn_refcount_c2() { refcount_contract::<2>(); }
+#[kani::proof] #[kani::unwind(6)] fn k_autodespawn_refcount_c2() { refcount_contract::<2>(); }
 //# id=K.autodespawn.refcount.c3 props=C10,C07 strength=bounded shape="3 clones, parent+child, collection after each drop" tier=thorough fns=AutoDespawner::prepare,AutoDespawnSignal::clone,garbage_collect_entities,AutoDespawnSignalInner::drop
-#[kani::proof] #[kani::unwind(10)] fn k_autodespawn_refcount_c3() { refcount_contract::<3>(); }
+#[kani::proof] #[kani::unwind(6)] fn k_autodespawn_refcount_c3() { refcount_contract::<3>(); }
 
 // ---------------------------------------------------------------------------------------------------------------
 // K.autodespawn.collect_all: ONE collection handles EVERY pending request: entities already gone (despawned by hand, or
 // as a descendant of an earlier request) are skipped without stopping the collection and without panicking (C10, C07, C18).
-// Shape: three prepared entities a,b,c whose signals are dropped in the order a,b,c; a symbolic subset is already dead.
+// Shape: two prepared entities a,b whose signals are dropped in the order a,b; which of them is already dead: one harness each.
 // ---------------------------------------------------------------------------------------------------------------
-//# id=K.autodespawn.collect_all props=C10,C07,C18 strength=bounded shape="3 pending requests; every subset already despawned by hand (symbolic)" tier=quick fns=garbage_collect_entities,AutoDespawner::try_recv
-#[kani::proof] #[kani::unwind(10)]
-fn k_autodespawn_collect_all() {
+fn collect_all_contract<const DA: bool, const DB: bool>() {
     let mut world = world_with_despawner();
-    let a = world.spawn(Tag(1)).id();
-    let b = world.spawn(Tag(2)).id();
-    let c = world.spawn(Tag(3)).id();
+    let a = world.spawn_empty().id();
+    let b = world.spawn_empty().id();
     let sa = world.resource::<AutoDespawner>().prepare(a);
     let sb = world.resource::<AutoDespawner>().prepare(b);
-    let sc = world.resource::<AutoDespawner>().prepare(c);
-    let (da, db, dc): (bool, bool, bool) = (kani::any(), kani::any(), kani::any());
-    if da { world.despawn(a); }
-    if db { world.despawn(b); }
-    if dc { world.despawn(c); }
-    drop(sa); drop(sb); drop(sc);
+    if DA { world.despawn(a); }
+    if DB { world.despawn(b); }
+    drop(sa); drop(sb);
     garbage_collect_entities(&mut world);
-    assert!(!world.verif_is_alive(a) && !world.verif_is_alive(b) && !world.verif_is_alive(c),
+    assert!(!world.verif_is_alive(a) && !world.verif_is_alive(b),
         "garbage_collect_entities: the first collection after the last drop despawns EVERY pending entity; entities already gone are ignored");
     assert!(world.resource::<AutoDespawner>().try_recv().is_none(), "garbage_collect_entities: drains the channel");
     core::mem::forget(world);
 }
+//# id=K.autodespawn.collect_all.first_dead props=C10,C07,C18 strength=bounded shape="2 pending requests, the first entity already despawned by hand" tier=quick fns=garbage_collect_entities,AutoDespawner::try_recv
+#[kani::proof] #[kani::unwind(6)] fn k_autodespawn_collect_all_first_dead() { collect_all_contract::<true, false>(); }
+//# id=K.autodespawn.collect_all.none_dead props=C10,C07,C18 strength=bounded shape="2 pending requests, both entities alive" tier=quick fns=garbage_collect_entities,AutoDespawner::try_recv
+#[kani::proof] #[kani::unwind(6)] fn k_autodespawn_collect_all_none_dead() { collect_all_contract::<false, false>(); }
+//# id=K.autodespawn.collect_all.both_dead props=C10,C07,C18 strength=bounded shape="2 pending requests, both entities already despawned" tier=thorough fns=garbage_collect_entities,AutoDespawner::try_recv
+#[kani::proof] #[kani::unwind(6)] fn k_autodespawn_collect_all_both_dead() { collect_all_contract::<true, true>(); }
